@@ -37,18 +37,11 @@ FIXED = [
  ("C10", "be24ecd", "Struct._update by byte copy left the handle's cached offsets of dynamic fields stale when the assigned struct splits the same size differently", "corpus/C10/struct_other_split_by_copy.json"),
  ("C09", "5f3b487", "Array._update left the handle's cached _size stale after a shrinking whole-array update: a later copy of that object was refused", "corpus/C09/second_copy_after_shrinking_update.json"),
  ("C19", "56f1ce4", "to_dict compared an array field with its default by broadcasting: a value of another length raised ValueError (or was wrongly omitted when it broadcasts to the default)", "corpus/C19/array_default_other_length.json"),
+ ("C10", "f846081", "handles kept a private copy of the offset table / size of movable parts: after a whole-object update through another handle (or growth) a pre-existing handle read other parts' bytes", "corpus/C10/stale_root_handle.json"),
+ ("C09", "f846081", "same root cause seen through copies (a copy made from a stale handle was refused or wrong)", "corpus/C09/stale_root_handle.json"),
+ ("C03", "f846081", "same root cause seen through byte locality (accesses through the stale handle landed on other parts)", "corpus/C03/stale_root_handle.json"),
 ]
-_STALE = ("a whole-object update that moves the parts of a root array of dynamically sized items (or of a root struct with two or more dynamic "
-          "fields), made through a view (_from_buffer) of that object, leaves the constructor handle's cached offsets stale: reads through the old "
-          "handle return other parts' bytes (Array and Struct keep a Python-side copy of the offset table per handle; only the updating handle is refreshed)")
-OPEN = [
- {"status": "open", "property": "C03", "id": "C03-stale-root-handle", "feature": "root array of dynamic items + whole-array update with via != handle, then an access through the constructor handle",
-  "call_site": "xobjects/array.py Array._update / Array.__init__ (self._offsets)", "what": _STALE, "example": "known/C03_stale_root_handle.json"},
- {"status": "open", "property": "C10", "id": "C10-stale-root-handle", "feature": "root array of dynamic items + whole-array update with via != handle",
-  "call_site": "xobjects/array.py Array._update / Array.__init__ (self._offsets)", "what": _STALE, "example": "known/C10_stale_root_handle.json"},
- {"status": "open", "property": "C09", "id": "C09-stale-root-handle", "feature": "root array of dynamic items + later whole-array write with via != handle",
-  "call_site": "xobjects/array.py Array._update / Array.__init__ (self._offsets)", "what": _STALE, "example": "known/C09_stale_root_handle.json"},
-]
+OPEN = []
 out = {"comment": "Read-only at run time. 'fixed' entries suppress nothing: the example is in corpus/ and is re-run by the check, so a regression is reported as a violation. 'open' entries are attributed by feature + counterfactual (DESIGN.md section 7).",
        "findings": []}
 for prop, commit, what, example in FIXED:
